@@ -122,6 +122,65 @@ Theorem C13_lock_mutex_unlocked_refuted :
 Proof. exact unlocked_refuted. Qed.
 Print Assumptions C13_lock_mutex_unlocked_refuted.
 
+(* ---- Lock: mutual exclusion between DIFFERENT HANDLES onto the same sink ---- *)
+(* a lockedWriteSyncer is a reference to a lock cell.  Lock on an already locked syncer returns
+   the same cell and allocates nothing; so do AddSync, the single-sink short cut of
+   NewMultiWriteSyncer and CombineWriteSyncers of one locked syncer *)
+Theorem C13_handles_same_cell : forall fresh c o,
+  h_lock Reuse fresh (HLocked c o) = (HLocked c o, fresh) /\
+  h_add_sync (HLocked c o) = HLocked c o /\
+  h_new_multi [HLocked c o] = HLocked c o /\
+  h_combine Reuse fresh [HLocked c o] = (HLocked c o, fresh).
+Proof. exact (fun fresh c o => conj eq_refl (conj eq_refl (conj eq_refl eq_refl))). Qed.
+Print Assumptions C13_handles_same_cell.
+
+(* every handle graph: handle 0 a locked syncer over the sink built by any of zap's constructors
+   (root kind r), every further handle obtained from earlier handles (and other sinks) by Lock /
+   AddSync / NewMultiWriteSyncer / CombineWriteSyncers, in any number and order: every path
+   from every handle to the sink passes through the root's lock cell, exactly once *)
+Theorem C13_handles_guarded : forall r ds, Forall (fun o => guarded 0 o = true) (graph Reuse r ds).
+Proof. exact graph_guarded. Qed.
+Print Assumptions C13_handles_guarded.
+
+(* ... hence for every handle graph, any number of threads, any sequence of Write (0) / Sync (1)
+   calls per thread through any of the handles, and every schedule: no two calls are inside the
+   sink at the same time, through whatever handles they came *)
+Theorem C13_handles_mutex : forall r ds (prog : list (list (Z * Z))) (sched : list nat),
+  let codes := handle_prog Reuse r ds prog in
+  let s := grun codes sched in
+  ~ g_overlap codes s /\ (gmax s <= 1)%nat /\ (gcur s <= 1)%nat.
+Proof. exact handles_mutex. Qed.
+Print Assumptions C13_handles_mutex.
+
+(* the same for any handles that share a cell on every path to the sink, and for any thread
+   code that uses one cell well-bracketed with its sink calls inside, whatever other mutexes it takes *)
+Theorem C13_handles_mutex_general : forall c hs, Forall (fun o => guarded c o = true) hs ->
+  forall (prog : list (list (Z * Z))) sched,
+  let codes := handle_codes hs prog in
+  ~ g_overlap codes (grun codes sched) /\ (gmax (grun codes sched) <= 1)%nat /\ (gcur (grun codes sched) <= 1)%nat.
+Proof. exact (fun c hs H prog sched => handles_mutex_general c hs prog sched H). Qed.
+Print Assumptions C13_handles_mutex_general.
+Theorem C13_cell_mutex : forall c codes, (forall t, gwb c Out (codes t) = true) -> forall sched,
+  ~ g_overlap codes (grun codes sched) /\ (gmax (grun codes sched) <= 1)%nat /\ (gcur (grun codes sched) <= 1)%nat.
+Proof. exact cell_mutex. Qed.
+Print Assumptions C13_cell_mutex.
+
+(* one call through handle number h reaches the sink as often as its derivation says (the root
+   once, Lock and AddSync relay, a multi-syncer calls each of its sinks) *)
+Theorem C13_handles_reach : forall m r ds prog,
+  map sinks (graph m r ds) = reaches ds /\ prog_begins (graph m r ds) prog = total_reach ds prog.
+Proof. exact (fun m r ds prog => conj (graph_reaches m r ds) (prog_begins_reach m r ds prog)). Qed.
+Print Assumptions C13_handles_reach.
+
+(* the model can express the failure: a Lock that strips an existing lock layer and wraps the sink
+   in a new lockedWriteSyncer (a second mutex) lets the original and the re-locked handle overlap *)
+Theorem C13_handles_rewrap_refuted :
+  exists r ds prog sched,
+    let codes := handle_prog Rewrap r ds prog in
+    g_overlap codes (grun codes sched) /\ gmax (grun codes sched) = 2%nat.
+Proof. exact rewrap_refuted. Qed.
+Print Assumptions C13_handles_rewrap_refuted.
+
 (* ---- the writers zap implements: (len p, nil) when p was accepted ---- *)
 Theorem C13_full_accept :
   (* std-log bridge: any payload, enabled or not *)
@@ -204,4 +263,19 @@ Example C13_ex_wf :
   wf (SL [SZ 2; SZ 0; SZ 1; SB sp_hello_nl; SB hello]) = true /\
   wf (SL [SZ 2; SZ 3; SZ 4; SL [SL [SZ 0; SB hello]; SL [SZ 1]]]) = true /\
   wf (SL [SZ 3; SL [SL [SZ 0]]; SL [SZ 0; SZ 0; SZ 0; SZ 0]]) = true.
+Proof. vm_compute. repeat split. Qed.
+(* handles: Lock(sink), Lock of it, CombineWriteSyncers of that with another sink (a second mutex
+   around the first), a multi of handles 0 and 1: all go through cell 0; a call through the last
+   one reaches the sink twice; thread 0 parked inside the sink, nobody else gets in *)
+Example C13_ex_handles :
+  let ds := [DLock 0; DCombine [1; -1]; DMulti [0; 1]] in
+  let prog := [[(0, 0)]; [(1, 1)]; [(2, 0)]; [(3, 1)]] in
+  graph Reuse 0 ds = [HLocked 0 HSink; HLocked 0 HSink; HLocked 1 (HMulti [HLocked 0 HSink; HOther]);
+                      HMulti [HLocked 0 HSink; HLocked 0 HSink]] /\
+  reaches ds = [1; 1; 1; 2]%nat /\
+  model (SL [SZ 4; SZ 1; SZ 0; SL [SL [SZ 0; SZ 0]; SL [SZ 3; SL [SZ 1; SZ (-1)]]; SL [SZ 2; SL [SZ 0; SZ 1]]];
+             SL [SL [SL [SZ 0; SZ 0]]; SL [SL [SZ 1; SZ 1]]; SL [SL [SZ 2; SZ 0]]; SL [SL [SZ 3; SZ 1]]]; SL []])
+    = SL [SZ 1; SZ 5] /\
+  gmax (grun (handle_prog Reuse 0 ds prog) (gate_sched (graph Reuse 0 ds) prog)) = 1%nat /\
+  gmax (grun (handle_prog Rewrap 0 ds prog) (gate_sched (graph Rewrap 0 ds) prog)) = 2%nat.
 Proof. vm_compute. repeat split. Qed.
